@@ -6,6 +6,7 @@
 //! thread flavour: one shuttle execution, whose tasks are coroutines on that
 //! same OS thread).
 
+pub mod alloc_seam;
 pub mod disk;
 pub mod entropy;
 pub mod env;
